@@ -35,6 +35,8 @@ class _SubroutineDeclByOption:
         }
         self.has_return: bool | None = None
         self.type_of: TealType | None = None
+        # first slot id after the slots a cached declaration allocated while it was evaluated
+        self.slot_id_end: dict[bool, int] = {}
 
     def get_declaration(self) -> "SubroutineDeclaration":
         warnings.warn(
@@ -49,10 +51,18 @@ class _SubroutineDeclByOption:
     ) -> "SubroutineDeclaration":
         decl = self.option_map[fp_option]
         if decl is not None:
+            # The cached declaration still owns the slot ids it allocated. If the slot counter has
+            # been rewound since (Router.compile_program does so after every build), skip them, so
+            # that slots created after this point never share an id with the cached ones and keep
+            # the same order relative to them on every build.
+            end = self.slot_id_end.get(fp_option, 0)
+            if ScratchSlot.nextSlotId < end:
+                ScratchSlot.reset_slot_numbering(end)
             return decl
         self.option_map[fp_option] = self.option_method[fp_option].evaluate(
             self.subroutine
         )
+        self.slot_id_end[fp_option] = ScratchSlot.nextSlotId
         return cast(SubroutineDeclaration, self.option_map[fp_option])
 
     def __probe_info(self, fp_option: bool) -> tuple[bool, TealType]:
